@@ -36,7 +36,9 @@ THEOREMS = ["QExPy.C04_key_unordered",
             "QExPy.C04_inferred_never_rejected",
             "QExPy.C04_inferred_is_sample_cov"]
 RULE = ("seeded histories (5-60 requests) over 2-6 operands of all kinds (single measurements incl. "
-        "zero uncertainty, plain reading arrays incl. equal length / collinear / zero spread, "
+        "zero uncertainty, plain reading arrays incl. equal length / collinear / zero spread / a large "
+        "mean with a small scatter (an accepted inference is judged against the exact rational "
+        "sample covariance of the readings), "
         "reading arrays with individual uncertainties, derived values, constants, plain numbers and "
         "strings): set_correlation / set_covariance in function and method form, either argument "
         "order, numbers from {0, tiny, mid, +-(1-ulp), +-1, +-(1+ulp), +-1.5, sigma_a*sigma_b in "
